@@ -204,4 +204,64 @@ theorem xzFile_msgs (cfg : Cfg) (o : Opts) (fi : FileIn) (out : Dest) :
       · simp [h1, h2]
 
 
+/-- Full `B`-byte pieces of `l`, then the remainder (shorter than `B`, possibly empty). -/
+def splitFull (B : Nat) (l : List UInt8) : List (List UInt8) :=
+  if _h : 0 < B ∧ B ≤ l.length then l.take B :: splitFull B (l.drop B) else [l]
+termination_by l.length
+decreasing_by simp; omega
+
+theorem splitFull_short {B : Nat} {l : List UInt8} (h : l.length < B) : splitFull B l = [l] := by
+  rw [splitFull]; simp; omega
+
+theorem splitFull_cons {B : Nat} (hB : 0 < B) {a : List UInt8} (ha : a.length = B) (l : List UInt8) :
+    splitFull B (a ++ l) = a :: splitFull B l := by
+  rw [splitFull]
+  have : 0 < B ∧ B ≤ (a ++ l).length := ⟨hB, by simp; omega⟩
+  simp only [this, and_self, dif_pos]
+  subst ha
+  simp
+
+/-- The `io_write` sequence of `coder_normal` depends only on the bytes the library produced, not on how many
+    `lzma_code` calls it took: full buffers, then the remainder with the final return value. -/
+theorem coderNormal_writes_split (cfg : Cfg) (hB : 0 < cfg.bufSize) (at_ tr : Bool) (steps : List Step) :
+    ∀ buf : List UInt8, buf.length < cfg.bufSize → stepsFit cfg steps buf.length = true → libFinal steps ≠ none →
+      (coderNormal cfg at_ tr steps buf).writes = splitFull cfg.bufSize (buf ++ libOutput steps) := by
+  induction steps with
+  | nil => intro buf _ _ h; simp [libFinal] at h
+  | cons st rest ih =>
+    intro buf hlt hfit hfin
+    unfold coderNormal
+    simp only [stepsFit, Bool.and_eq_true, decide_eq_true_eq] at hfit
+    obtain ⟨hle, hrest⟩ := hfit
+    simp only [libOutput, libFinal] at hfin ⊢
+    by_cases hfull : buf.length + st.out.length = cfg.bufSize
+    · have hl : (buf ++ st.out).length = cfg.bufSize := by simpa using hfull
+      by_cases hok : st.ret = .ok
+      · have ih0 := ih [] (by simpa using hB) (by simpa [hfull] using hrest) (by simpa [Ret.stops, hok] using hfin)
+        simp only [List.nil_append] at ih0
+        simp [Ret.stops, hok, hfull, ih0]
+        rw [← List.append_assoc, splitFull_cons hB hl]
+      · by_cases hw : st.ret = .unsupportedCheck
+        · have ih0 := ih [] (by simpa using hB) (by simpa [hfull] using hrest) (by simpa [Ret.stops, hw] using hfin)
+          simp only [List.nil_append] at ih0
+          simp [Ret.stops, hw, hfull, ih0]
+          rw [← List.append_assoc, splitFull_cons hB hl]
+        · have hsp : splitFull cfg.bufSize (buf ++ st.out) = [buf ++ st.out, []] := by
+            have := splitFull_cons hB hl []
+            simp at this
+            rw [this, splitFull_short (by simpa using hB)]
+          by_cases he : st.ret = .streamEnd <;> by_cases ht : (at_ || !tr) = true <;>
+            simp [Ret.stops, hok, hw, hfull, he, ht, hsp]
+    · have hlt' : (buf ++ st.out).length < cfg.bufSize := by simp; omega
+      by_cases hok : st.ret = .ok
+      · have ih1 := ih (buf ++ st.out) hlt' (by simpa [hfull] using hrest) (by simpa [Ret.stops, hok] using hfin)
+        simp [Ret.stops, hok, hfull, ih1]
+      · by_cases hw : st.ret = .unsupportedCheck
+        · have ih1 := ih (buf ++ st.out) hlt' (by simpa [hfull] using hrest) (by simpa [Ret.stops, hw] using hfin)
+          simp [Ret.stops, hw, hfull, ih1]
+        · have hsp := splitFull_short hlt'
+          by_cases he : st.ret = .streamEnd <;> by_cases ht : (at_ || !tr) = true <;>
+            simp [Ret.stops, hok, hw, hfull, he, ht, hsp]
+
+
 end XzVerif.Sparse
